@@ -1452,7 +1452,7 @@ func (m *Machine) intToFloatRounded(x SymInt, is32 bool) Value {
 	if neg {
 		val = c.Neg(val)
 	}
-	return &SymFloat{R: c.ToReal(val), IsInt: c.True}
+	return &SymFloat{R: c.ToReal(val), M: val, Esel: c.Int(0), Exps: []int{0}, IsInt: c.True}
 }
 
 // floatToInt models intN(f) for a finite f whose truncation fits the type (forks otherwise).
